@@ -34,6 +34,8 @@ type TokDecl struct {
 	Name string `json:"name"` // identifier or 'x'
 	Num  int    `json:"num,omitempty"`
 	Tag  string `json:"tag,omitempty"`
+	// Alias: a string written after the name (and number): `%token NAME 300 "alias"`; it names no symbol
+	Alias string `json:"alias,omitempty"`
 	// Via: "token" (default), or "" when the token is only introduced by a
 	// precedence line / by use in a rule.
 	NoTokenLine bool `json:"no_token_line,omitempty"`
@@ -42,6 +44,7 @@ type TokDecl struct {
 type PrecLevel struct {
 	Assoc string   `json:"assoc"` // left | right | nonassoc
 	Toks  []string `json:"toks"`
+	Tag   string   `json:"tag,omitempty"` // %left <tag> ...: value tag given to every token of the line
 }
 
 type TypeDecl struct {
@@ -50,20 +53,20 @@ type TypeDecl struct {
 }
 
 type Spec struct {
-	Prologue    string      `json:"prologue,omitempty"`
+	Prologue string `json:"prologue,omitempty"`
 	// MorePrologue: further %{ ... %} blocks, written after the declarations;
 	// a text without line break is written on one line (`%{ text %}`)
-	MorePrologue []string `json:"more_prologue,omitempty"`
-	Union       string      `json:"union,omitempty"`
-	HasUnion    bool        `json:"has_union,omitempty"`
-	Tokens      []TokDecl   `json:"tokens"`
-	LateTokens  []TokDecl   `json:"late_tokens,omitempty"` // %token lines written after the precedence lines
-	Prec        []PrecLevel `json:"prec,omitempty"`
-	Types       []TypeDecl  `json:"types,omitempty"`
-	Start       string      `json:"start,omitempty"`
-	Rules       []Rule      `json:"rules"`
-	Epilogue    string      `json:"epilogue,omitempty"`
-	HasEpilogue bool        `json:"has_epilogue,omitempty"`
+	MorePrologue []string    `json:"more_prologue,omitempty"`
+	Union        string      `json:"union,omitempty"`
+	HasUnion     bool        `json:"has_union,omitempty"`
+	Tokens       []TokDecl   `json:"tokens"`
+	LateTokens   []TokDecl   `json:"late_tokens,omitempty"` // %token lines written after the precedence lines
+	Prec         []PrecLevel `json:"prec,omitempty"`
+	Types        []TypeDecl  `json:"types,omitempty"`
+	Start        string      `json:"start,omitempty"`
+	Rules        []Rule      `json:"rules"`
+	Epilogue     string      `json:"epilogue,omitempty"`
+	HasEpilogue  bool        `json:"has_epilogue,omitempty"`
 }
 
 // IsLit reports whether a symbol is written as a character literal.
@@ -172,10 +175,16 @@ func (s *Spec) Render() string {
 		if t.Num != 0 {
 			fmt.Fprintf(&b, " %d", t.Num)
 		}
+		if t.Alias != "" {
+			b.WriteString(" \"" + t.Alias + "\"")
+		}
 		b.WriteString("\n")
 	}
 	for _, p := range s.Prec {
 		b.WriteString("%" + p.Assoc)
+		if p.Tag != "" {
+			b.WriteString(" <" + p.Tag + ">")
+		}
 		for _, t := range p.Toks {
 			b.WriteString(" " + t)
 		}
@@ -189,6 +198,9 @@ func (s *Spec) Render() string {
 		b.WriteString(t.Name)
 		if t.Num != 0 {
 			fmt.Fprintf(&b, " %d", t.Num)
+		}
+		if t.Alias != "" {
+			b.WriteString(" \"" + t.Alias + "\"")
 		}
 		b.WriteString("\n")
 	}
